@@ -28,7 +28,11 @@ static std::string workload(int k)
     s += "local.e = spawn SimpleEntity targetname \"tn" + std::to_string(k % 3) + "\"\n";
     s += "println $tn" + std::to_string(k % 3) + ".targetname\n";
     s += "local.e remove\n";
+    s += "println \"depth \" (waitthread rec " + std::to_string(8 + k % 5) + ")\n";
     s += "end\n";
+    s += "rec local.n:\n";
+    s += "if (local.n <= 0) { end 0 }\n";
+    s += "end (1 + (waitthread rec (local.n - 1)))\n";
     s += "other local.p:\n";
     s += "println \"other \" local.p\n";
     s += "wait 0.001\n";
@@ -42,12 +46,18 @@ static uint64_t fnv(const std::string& s) { uint64_t h = 1469598103934665603ull;
 static std::string runOne(int idx, int rounds, unsigned seed)
 {
     std::string all;
+    // every other host configures the interpreter nesting limit of ITS engine thread
+    if (idx % 2) ScriptExecutionStack::SetMaxStackDepth(5 + idx % 4);
     for (int r = 0; r < rounds; ++r) {
         vh::Engine e;
         const int k = idx * 7 + r;
         const ProgramScript* scr = e.compile("w" + std::to_string(k), workload(k));
-        if (scr) e.director().ExecuteThread(scr);
-        for (int f = 0; f < 6; ++f) { vh::g_clock += 1; e.ctx->Execute(); }
+        try { if (scr) e.director().ExecuteThread(scr); }
+        catch (const std::exception& ex) { all += std::string("exception ") + ex.what() + "\n"; }
+        for (int f = 0; f < 6; ++f) {
+            vh::g_clock += 1;
+            try { e.ctx->Execute(); } catch (const std::exception& ex) { all += std::string("exception ") + ex.what() + "\n"; }
+        }
         if ((r + seed) % 2) e.director().Reset();
         for (const std::string& l : e.takeOutput()) { all += l; all += "\n"; }
         all += "idle=" + std::to_string(e.ctx->IsIdle() ? 1 : 0) + " warn=" + std::to_string(e.io.warn.str().size() ? 1 : 0) + "\n";
@@ -64,7 +74,8 @@ int main(int argc, char** argv)
     mfuse::verif::clockHook = &vh::clockFn;
     EventSystem::Get();
     std::vector<std::string> solo(n), conc(n);
-    for (int i = 0; i < n; ++i) solo[i] = runOne(i, rounds, seed);
+    // the solo runs: one fresh OS thread per workload, one after the other (thread-local state starts at its defaults, as in the concurrent run)
+    for (int i = 0; i < n; ++i) { std::thread t([&, i]() { solo[i] = runOne(i, rounds, seed); }); t.join(); }
     std::atomic<int> go{0};
     std::vector<std::thread> th;
     for (int i = 0; i < n; ++i) {
@@ -82,7 +93,7 @@ int main(int argc, char** argv)
                     (size_t)std::count(conc[i].begin(), conc[i].end(), '\n'), solo[i] == conc[i] ? "same" : "DIFFERENT");
         if (solo[i] != conc[i]) bad++;
     }
-    if (argc > 4) std::printf("--- output of t0 ---\n%s", solo[0].c_str());
+    if (argc > 4) std::printf("--- output of t%d ---\n%s", std::atoi(argv[4]) % n, solo[std::atoi(argv[4]) % n].c_str());
     std::fflush(stdout);
     std::_Exit(bad ? 3 : 0);
 }
